@@ -1,7 +1,9 @@
 """Method bodies made of expression statements, returns, blocks and lambdas (Model/Returns.v), as Ruby and as Coq terms."""
 from lib import common as C
 
-LIT = {"Integer": "1", "String": '"s"', "Float": "1.5", "Symbol": ":a", "NilClass": "nil"}
+LIT = {"Integer": "1", "String": '"s"', "Float": "1.5", "Symbol": ":a", "NilClass": "nil",
+       "Zka": "Zka.new", "Zkb": "Zkb.new"}      # two user classes; arrays occur as block values (one kind: Array<Integer>)
+PREAMBLE = ["class Zka", "end", "class Zkb", "end"]
 BLOCKS = [("[1].each do |zb%d|", "end", "Array<Integer>"), ("3.times do |zb%d|", "end", "Integer"),
           ("[1].each { |zb%d|", "}", "Array<Integer>")]
 LAMBDAS = [("zl%d = lambda do |zx%d|", "end"), ("zl%d = lambda { |zx%d|", "}"), ("zl%d = ->(zx%d) {", "}")]
@@ -84,9 +86,27 @@ def reference(body):
 
 
 def program(body, name="zm"):
-    lines = ["def %s" % name] + render(body, 1, [0]) + ["end", "dbtp %s" % name]
+    lines = PREAMBLE + ["def %s" % name] + render(body, 1, [0]) + ["end", "dbtp %s" % name]
     return "\n".join(lines) + "\n", len(lines)
 
 
 def has(body, kind):
     return any(s[0] == kind or (s[0] in ("block", "lambda") and has(s[2], kind)) for s in body)
+
+
+ARRAYS = [("[1]", "Integer"), ('["a"]', "String"), ("[1.5]", "Float"), ("[:a]", "Symbol"), ('[1, "a"]', "Integer String")]
+
+
+def array_returns(r):
+    """def with 2-3 array results of different element types: the call has ONE array type holding all of them"""
+    picks = r.sample(ARRAYS, r.choice([2, 2, 3]))
+    lines = ["def zarr(k)"]
+    for txt, _ in picks[:-1]:
+        lines.append("  return %s%s" % (txt, r.choice(["", " if k"])))
+    lines += ["  " + picks[-1][0], "end", "dbtp zarr(true)"]
+    elems = []
+    for _, t in picks:
+        for e in t.split(" "):
+            if e not in elems:
+                elems.append(e)
+    return "\n".join(lines) + "\n", len(lines), "Array<%s>" % " ".join(elems)
